@@ -353,6 +353,15 @@ def probe(H):
             'reduce_exp_ok': ok(lambda: H.FPNum(1.5).reduceExponentPrecision(8))}
 
 
+# the model instance Properties/C12.v is stated for (= /repo today); and, per probe, the theorems that stand on it
+THEOREM_INSTANCE = {'hp_sube': -14, 'sp_zero_sign': True, 'cmp_inf_fix': True, 'cmp_zero_fix': True, 'fx_iw0': True, 'reduce_exp_ok': True}
+INSTANCE_THEOREMS = {'hp_sube': ['C12_fpnum_decode_hp', 'C12_fpnum_round_trip_hp'],
+                     'sp_zero_sign': ['C12_fph_encode_decode_sp_partial', 'C12_fph_encode_exact_sp_partial'],
+                     'cmp_inf_fix': ['C12_fpnum_compare_total'], 'cmp_zero_fix': ['C12_fpnum_compare_total', 'C12_fpnum_compare_exact'],
+                     'fx_iw0': ['C12_fx_add', 'C12_fx_sub', 'C12_fx_mult', 'C12_fx_of_int', 'C12_fx_mult_small'],
+                     'reduce_exp_ok': ['C12_fpnum_reduce_exponent']}
+
+
 def run(ctx):
     ctx.cov['rule'] = ('obligations: theorems of Properties/C12.v; evaluations: calls of the real helper functions compared with an independent '
                        'oracle (struct / Fraction / int arithmetic) plus the cases compared with model and spec inside Coq; a case is distinct by '
@@ -367,6 +376,12 @@ def run(ctx):
     with common.quiet():
         probes = probe(H)
     ctx.notes['probes'] = probes
+    regressed = sorted(k for k in THEOREM_INSTANCE if probes.get(k) != THEOREM_INSTANCE[k])
+    untied = sorted({t for k in regressed for t in INSTANCE_THEOREMS[k]})
+    if regressed:
+        # the implementation behaves as a pre-repair instance again: the full-strength theorems are about another model instance
+        ctx.notes['instance_mismatch'] = {'probes_that_differ': {k: {'implementation': probes.get(k), 'theorems': THEOREM_INSTANCE[k]} for k in regressed},
+                                          'theorems_no_longer_about_the_code': untied}
     # 1. oracle sweep = property on the implementation + search
     with common.quiet():
         sw = oracle_sweep(ctx, H, rng)
@@ -409,8 +424,14 @@ def run(ctx):
                            'file': r.get('file'), 'coq_error': r.get('msg')}, found_input=False)
         for t in tie_bad[:3]:
             ctx.violation(t, found_input=False)
+        if regressed and r['ok'] and not missing and not tie_bad:
+            ctx.violation({'what': 'the implementation behaves as a pre-repair version again (%s): %s are stated for another model instance and no '
+                                   'theorem exists for the instance the probe selects' % (', '.join(regressed), ', '.join(untied)),
+                           'probes': ctx.notes['instance_mismatch']}, found_input=False)
     else:
         ctx.notes['tie_mismatches'] = tie_bad[:10]
+    if regressed and r['ok']:
+        ctx.cov['discharged'] = max(0, ctx.cov['discharged'] - len(untied))      # obligations that no longer speak about the code
     ctx.notes['theorems_over_real_number_axioms'] = ['C12_spec_is_flocq_b32', 'C12_spec_is_flocq_b64']
     ctx.notes['observations'] = ['FPNum.mul(inf, 0) returns infinity (IEEE: NaN) - outside the claim (rationals only)',
                                  'FixedPoint.mult reads the top bit as a sign also for sw = 0 (C12_fx_mult_unsigned_refuted)',
